@@ -210,6 +210,19 @@ def analyse_c03(evs, meta):
     return viols, summary
 
 
+def analyse_c14(evs, meta):
+    """A descriptor handed to a refused registration must be closed exactly once: any close() answered with EBADF
+    in the traced children is a second close."""
+    viols = []
+    closes = 0
+    for e in evs:
+        if e["kind"] == "call" and e["name"] == "close":
+            closes += 1
+            if "EBADF" in e["args"]:
+                viols.append({"sig": "strace-double-close", "detail": "close() of an already closed descriptor (line %d): %s" % (e["line"], e["text"][:120])})
+    return viols, {"strace_closes_seen": closes, "evaluations": closes, "distinct_keys": ["closes"], "samples": [e["text"] for e in evs if e["kind"] == "call" and e["name"] == "close"][:2]}
+
+
 def analyse(trace, st, summaries):
     evs = parse(trace)
     meta = {}
@@ -217,7 +230,11 @@ def analyse(trace, st, summaries):
         if "trace_meta" in s:
             meta = s["trace_meta"]
     which = st.get("oracle")
-    if which == "c13":
+    if which == "c14":
+        v, s = analyse_c14(evs, meta)
+        for x in v:
+            x["property"] = "C14"
+    elif which == "c13":
         v, s = analyse_c13(evs, meta)
         for x in v:
             x["property"] = "C13"
